@@ -38,6 +38,7 @@ type Event struct {
 
 type EvStmt struct {
 	IsAssert bool
+	IsAssume bool // `assume e`: behaviour of the external callee stated in the caller's terms (reported as an assumption)
 	A        Assign
 	C        Clause
 }
@@ -79,6 +80,7 @@ type FuncContract struct {
 	Results    []string
 	AllocBound map[int]string
 	Fresh      []string // results that are freshly allocated
+	Wraps      [][2]string // (wrapper, inner): writes to the wrapper object end up in the inner io.Writer
 	Trusted    bool     // body is not verified (explicitly listed as assumption)
 	NoReturn   []Clause // conditions (over entry values) under which the function never returns
 	ReadOnly   bool     // neutral and does not write through pointer arguments either
@@ -116,6 +118,7 @@ type SpecFile struct {
 	SpecFuncs []*SpecFunc
 	Lemmas    []*Lemma
 	NonNilGlobals []string
+	FieldRanges   [][4]string // type (pkgpath.Name), field path, lo, hi: assumed value range of a counter field
 }
 
 var reLabel = regexp.MustCompile(`^@([A-Za-z0-9_\-\.]+)\s+`)
@@ -418,6 +421,13 @@ func parseSpecFile(path string, pkgPath string, raw bool) (*SpecFile, error) {
 			case "nonnil":
 				sf.NonNilGlobals = append(sf.NonNilGlobals, strings.Fields(rest)...)
 				continue
+			case "fieldrange":
+				fs := strings.Fields(rest)
+				if len(fs) != 4 {
+					return nil, fail(i, "fieldrange takes a type, a field, a lower and an upper bound")
+				}
+				sf.FieldRanges = append(sf.FieldRanges, [4]string{fs[0], fs[1], fs[2], fs[3]})
+				continue
 			default:
 				return nil, fail(i, "unknown top-level directive %q", word)
 			}
@@ -483,6 +493,12 @@ func parseSpecFile(path string, pkgPath string, raw bool) (*SpecFile, error) {
 			cur.DeadEdges = k
 		case "fresh":
 			cur.Fresh = append(cur.Fresh, splitTopLevel(rest, ',')...)
+		case "wraps":
+			fs := strings.Fields(rest)
+			if len(fs) != 2 {
+				return nil, fail(i, "wraps takes a wrapper and an inner writer")
+			}
+			cur.Wraps = append(cur.Wraps, [2]string{fs[0], fs[1]})
 		case "ghost":
 			// ghost name type = init
 			parts := strings.SplitN(rest, "=", 2)
@@ -528,6 +544,9 @@ func parseSpecFile(path string, pkgPath string, raw bool) (*SpecFile, error) {
 							cl := parseClause(strings.TrimSpace(strings.TrimPrefix(part, "assert")), path, nums[i])
 							ev.Asserts = append(ev.Asserts, cl)
 							ev.Stmts = append(ev.Stmts, EvStmt{IsAssert: true, C: cl})
+						} else if strings.HasPrefix(part, "assume ") {
+							cl := parseClause(strings.TrimSpace(strings.TrimPrefix(part, "assume")), path, nums[i])
+							ev.Stmts = append(ev.Stmts, EvStmt{IsAssume: true, C: cl})
 						} else if part != "" {
 							as, err := parseAssigns(part)
 							if err != nil {
